@@ -497,6 +497,23 @@ fn child_pids() -> Vec<i32> {
     out
 }
 
+/// what became of the debuggee PROCESS (seen through /proc, not through the adapter): `unload` a forked child that has
+/// not yet executed the program, `alive` the program, `gone` no child (or only a dead one). Used when a request that
+/// starts the debuggee is answered with an error: the debugger library may fail half-way (it does, under load, in the
+/// thread-creation race of its tracer), and what the debuggee did is an observation, not something the adapter owes.
+fn debuggee_state() -> &'static str {
+    let mut st = "gone";
+    for c in child_pids() {
+        let stat = std::fs::read_to_string(format!("/proc/{c}/stat")).unwrap_or_default();
+        let state = stat.rsplit(')').next().unwrap_or("").split_whitespace().next().unwrap_or("Z").to_string();
+        if state == "Z" || state == "X" { continue; }
+        let comm = std::fs::read_to_string(format!("/proc/{c}/comm")).unwrap_or_default();
+        if comm.trim().starts_with("c12_chatty") { return "alive"; }
+        st = "unload";
+    }
+    st
+}
+
 /// where every thread of this process and every child process is blocked (kept in the session log of a hang)
 fn hang_diag() -> Value {
     let rd = |p: String| std::fs::read_to_string(p).unwrap_or_default().trim().to_string();
@@ -563,6 +580,7 @@ fn worker(variant: &str, force: &str, reqs: &[Req], log: &Path, expected_len: (u
         // a request is sent when the previous one is answered completely; a piped one right away
         if !r.piped { wait_reads(i as u64 + 1, i); }
         if h.is_finished() { break; }
+        if !r.piped && i > 0 { rec.rec(json!({"t": "obs", "dbg": debuggee_state()})); }
         // refresh what we know from the wire (the worker re-reads its own log: simple and rarely done)
         let text = std::fs::read_to_string(log).unwrap_or_default();
         for l in text.lines().skip(seen_lines) {
@@ -594,6 +612,7 @@ fn worker(variant: &str, force: &str, reqs: &[Req], log: &Path, expected_len: (u
         sent += 1;
     }
     wait_reads(sent + 1, reqs.len());
+    if !h.is_finished() { rec.rec(json!({"t": "obs", "dbg": debuggee_state()})); }
     RELEASE.store(1, Ordering::SeqCst);
     drop(tx.take());
     let t0 = Instant::now();
@@ -719,7 +738,7 @@ fn run_workers_once(sessions: &[Session], which: &[usize], dir: &Path, expected:
 }
 
 #[derive(Clone, Debug)]
-enum Rec { Closed, Got, W(Value), Tl(Vec<i64>), A { w: u64, seq: i64 }, End(String), Hang, Done }
+enum Rec { Closed, Got, W(Value), Tl(Vec<i64>), Obs(String), A { w: u64, seq: i64 }, End(String), Hang, Done }
 
 fn load_log(p: &Path) -> Vec<Rec> {
     let text = std::fs::read_to_string(p).unwrap_or_default();
@@ -730,6 +749,7 @@ fn load_log(p: &Path) -> Vec<Rec> {
             "got" => Rec::Got,
             "w" => Rec::W(v["m"].clone()),
             "tl" => Rec::Tl(v["ids"].as_array()?.iter().filter_map(|x| x.as_i64()).collect()),
+            "obs" => Rec::Obs(v["dbg"].as_str()?.to_string()),
             "a" => Rec::A { w: v["w"].as_u64()?, seq: v["seq"].as_i64()? },
             "end" => Rec::End(v["res"].as_str()?.to_string()),
             "hang" => Rec::Hang,
@@ -802,7 +822,7 @@ fn norm_thread_runs(tokens: &mut [String]) {
 }
 
 #[derive(Default)]
-struct Answer { tokens: Vec<String>, ended: Option<String>, closed: bool, hang: bool, msgs: Vec<Value>, tls: Vec<Vec<i64>> }
+struct Answer { tokens: Vec<String>, ended: Option<String>, closed: bool, hang: bool, msgs: Vec<Value>, tls: Vec<Vec<i64>>, obs: Option<String> }
 
 /// per request: the messages written between the moment the session received it and the moment it received the next
 fn split_answers(log: &[Rec], nreq: usize, ranks: &BTreeMap<i64, usize>) -> Vec<Answer> {
@@ -816,6 +836,7 @@ fn split_answers(log: &[Rec], nreq: usize, ranks: &BTreeMap<i64, usize>) -> Vec<
                 a.msgs.push(m.clone());
             },
             Rec::Tl(l) => if let Some(a) = out.last_mut() { a.tls.push(l.clone()); },
+            Rec::Obs(o) => if let Some(a) = out.last_mut() { a.obs = Some(o.clone()); },
             Rec::End(res) => if let Some(a) = out.last_mut() { a.ended = Some(res.clone()); },
             Rec::Hang => if let Some(a) = out.last_mut() { a.hang = true; },
             _ => {}
@@ -855,6 +876,8 @@ fn hints(rq: &Req, a: &Answer, ranks: &BTreeMap<i64, usize>) -> String {
     };
     let mut s = format!("h:{outcome} {tl}");
     if CALL_HINT.contains(&cmd) { s += if rsps.last().is_some_and(|m| m["success"] == true) { " h:ok" } else { " h:fail" }; }
+    // a request that starts the debuggee and is answered with an error: what the process did nevertheless
+    if matches!(cmd, "configurationDone" | "restart") && !all_ok { if let Some(o) = &a.obs { s += &format!(" dbg:{o}"); } }
     if cmd == "stackTrace" { s += &format!(" pg:{}", a.msgs.iter().filter(|m| m["event"] == "progressStart").count()); }
     if cmd == "setDataBreakpoints" {
         let n = rsps.last().map(|m| m["body"]["breakpoints"].as_array().into_iter().flatten().filter(|b| b["verified"] == true).count()).unwrap_or(0);
